@@ -3,6 +3,7 @@ package smtp
 import (
 	"errors"
 	"io"
+	"strings"
 )
 
 // verifTextOctet: domain of backend message octets in C17: printable ASCII,
@@ -179,4 +180,85 @@ func verif_C17_lookalike() {
 	verifAssert(got.EnhancedCode == EnhancedCodeNotSet, "C17.lookalike-no-invented-enhanced-code")
 	verifAssert(got.Message == msg, "C17.lookalike-text-intact")
 	verifReach("C17.lookalike-end")
+}
+
+// verif_C17_pair: TWO consecutive refusals on one connection (two RCPTs, or MAIL
+// then MAIL, or the per-recipient statuses of one LMTP message), each with its
+// own reply code out of five and its enhanced code set, unset or explicitly
+// absent: every reply carries its own code, its own enhanced code (X.0.0 of
+// ITS class when unset) and its own text - nothing is carried over from the
+// reply before it.
+func verif_C17_pair() {
+	codes := []int{421, 450, 451, 550, 554}
+	mk := func(tag string) (*SMTPError, int, EnhancedCode, bool) {
+		code := codes[verifChoice(len(codes))]
+		e := &SMTPError{Code: code, Message: "refused " + tag}
+		want := EnhancedCode{code / 100, 0, 0}
+		has := true
+		switch verifChoice(3) {
+		case 0:
+			e.EnhancedCode = EnhancedCodeNotSet
+		case 1:
+			e.EnhancedCode = EnhancedCode{code / 100, 1, 1}
+			want = e.EnhancedCode
+		case 2:
+			e.EnhancedCode = NoEnhancedCode
+			has = false
+		}
+		return e, code, want, has
+	}
+	e1, c1, w1, h1 := mk("one")
+	e2, c2, w2, h2 := mk("two")
+	shape := verifChoice(3)
+	be := &vbackend{lmtpSession: shape == 2}
+	n := 0
+	next := func() error {
+		n++
+		if n == 1 {
+			return e1
+		}
+		return e2
+	}
+	var in string
+	skip := 0
+	switch shape {
+	case 0:
+		be.rcptErr = func(string) error { return next() }
+		in = "EHLO c\r\nMAIL FROM:<a@v>\r\nRCPT TO:<b@v>\r\nRCPT TO:<c@v>\r\nNOOP\r\n"
+		skip = 3
+	case 1:
+		be.mailErr = func(string) error { return next() }
+		in = "EHLO c\r\nMAIL FROM:<a@v>\r\nMAIL FROM:<b@v>\r\nNOOP\r\n"
+		skip = 2
+	case 2:
+		be.lmtpFn = func(_ *vsession, r io.Reader, st StatusCollector) error {
+			verifReadAll(r, 4)
+			st.SetStatus("b@v", e1)
+			st.SetStatus("c@v", e2)
+			return nil
+		}
+		in = "LHLO c\r\nMAIL FROM:<a@v>\r\nRCPT TO:<b@v>\r\nRCPT TO:<c@v>\r\nDATA\r\nx\r\n.\r\nNOOP\r\n"
+		skip = 6
+	}
+	s, _ := verifServer(be)
+	s.LMTP = shape == 2
+	vc, _, _ := verifServe(s, []byte(in), io.EOF)
+	reps, wf := verifParseReplies(vc.out)
+	verifObserve("c17pair", shape, c1, c2, h1, h2, wf, len(reps))
+	verifAssert(wf && len(reps) == skip+3, "C17.pair-replies")
+	if !wf || len(reps) != skip+3 {
+		return
+	}
+	check := func(r vreply, code int, want EnhancedCode, has bool, tag string) {
+		verifAssert(r.code == code, "C17.pair-own-code")
+		verifAssert(r.hasEn == has, "C17.pair-enhanced-code-present-iff-not-suppressed")
+		if has && r.hasEn {
+			verifAssert(r.enh == [3]int(want), "C17.pair-own-enhanced-code")
+		}
+		verifAssert(len(r.lines) == 1 && strings.HasSuffix(r.lines[0], "refused "+tag), "C17.pair-own-text")
+	}
+	check(reps[skip], c1, w1, h1, "one")
+	check(reps[skip+1], c2, w2, h2, "two")
+	verifAssert(reps[skip+2].code == 250, "C17.pair-command-mode-after")
+	verifReach("C17.pair-end")
 }
